@@ -1693,6 +1693,8 @@ def c21_narrow(R):
     n = 0
     for name, fn in util.methods_of(cls).items():
         params = {a.arg for a in fn.args.args} - {"self"}
+        if any(_is_bound_diff(x) for x in ast.walk(fn)):
+            fn = util.inline_aliases(fn, _is_bound_diff)  # a hoisted `span = ub - lb` reads as the difference
         stride_locals = set()
         for st in walk_no_nested(fn):
             if isinstance(st, ast.Assign) and len(st.targets) == 1 and isinstance(st.targets[0], ast.Name):
